@@ -7,7 +7,7 @@ import numpy as np
 from . import common, cons, hand, hist, place, universe, xt
 
 PID = "C09"
-DESTS = ["same", "other", "ctx", "ctx-default", "kind"]
+DESTS = ["same", "other", "ctx", "ctx-default", "kind", "same:view", "other:view"]  # ":view" = the source is a view rebuilt from (buffer, offset)
 VMODES = ["ramp", "null", "extreme"]
 
 
@@ -48,6 +48,7 @@ class Pair:
 
 
 def dest_kwargs(dest, sb):
+    dest = dest.split(":")[0]
     if dest == "same":
         return dict(_buffer=sb)
     if dest == "other":
@@ -67,6 +68,8 @@ def build(t, v, dest, writes):
     p.t, p.dest = t, dest
     p.sb = place.traced("np", 0)
     p.src = xt.construct(t, cons.base_arg(t, v), _buffer=p.sb)
+    if dest.endswith(":view") and t[0] != "U":
+        p.src = xt.build(t)._from_buffer(p.src._buffer, p.src._offset)
     p.msrc = v
     p.copy_error = None
     p.src_log = list(p.sb.log)
@@ -87,7 +90,7 @@ def apply_write(p, w):
     side, path, val = w
     h = p.src if side == "src" else p.copy
     hand.assign(p.t, h, path, val)
-    shared = p.dest == "same" and any(q in ("*", "#") for q in path)
+    shared = p.dest.split(":")[0] == "same" and any(q in ("*", "#") for q in path)
     if side == "src" or shared:
         p.msrc = xt.set_path(p.msrc, path, val)
     if side == "copy" or shared:
@@ -116,9 +119,9 @@ def check_copy(p, res):
         return ("C09.equal", "copy-differs", "first difference at %r: %s" % xt.vdiff(gc, p.mcopy))
     if not xt.veq(gs, p.msrc):
         return ("C09.equal", "source-changed", "first difference at %r: %s" % xt.vdiff(gs, p.msrc))
-    if p.dest != "same" and p.copy._buffer is p.sb:
+    if p.dest.split(":")[0] != "same" and p.copy._buffer is p.sb:
         return ("C09.placement", "copy-in-source-buffer", "")
-    if p.dest == "same" and p.copy._buffer is not p.sb:
+    if p.dest.split(":")[0] == "same" and p.copy._buffer is not p.sb:
         return ("C09.placement", "copy-not-in-requested-buffer", "")
     try:
         es, ec = extents(t, p.src), extents(t, p.copy)
@@ -129,7 +132,7 @@ def check_copy(p, res):
     for pa, a, b, bf, tr in ec:
         if bf is not p.copy._buffer:
             return ("C09.refs-valid", "part-in-foreign-buffer", "part %r of the copy lives in another buffer" % (pa,))
-        if p.dest == "same":
+        if p.dest.split(":")[0] == "same":
             if tr:
                 # referents are shared in the same buffer: the first reference crossed decides
                 if pa in ds and ds[pa] != (a, b):
